@@ -54,8 +54,65 @@ def area2 (r : List (Pt Q)) : Q :=
     let closed := r ++ [f]
     (closed.zip (closed.drop 1)).foldl (fun acc (a, b) => acc + (a.x * b.y - b.x * a.y)) 0
 
+/-- the former vertex clause (every kind, both axes, tolerance 1e-9): superseded by `vertsOK` below, kept for
+    reference only -/
 def inBoxTol (b : Bound Q) (p : Pt Q) : Bool :=
   b.lo.x - tol ≤ p.x && p.x ≤ b.hi.x + tol && b.lo.y - tol ≤ p.y && p.y ≤ b.hi.y + tol
+
+/-! ### "never a vertex outside the box": COPIED and COMPUTED output vertices
+
+  Which coordinates of a result did the code compute, and which did it copy from its argument?
+
+  * `clip.Geometry` on a Point returns the argument; `clip.MultiPoint` appends the members `b.Contains`
+    accepts; `clip.Bound` takes `math.Max` / `math.Min` of corner coordinates.  COPIES throughout: every
+    coordinate of the result is bit-identical to a coordinate of the argument or of the box, and it was
+    compared with the box edges as it is.  No rounding ⇒ NO TOLERANCE: the vertices (corners) must lie in
+    the closed box exactly.
+  * `clip.LineString` / `clip.MultiLineString` (closed bound here): a result vertex is an input vertex with
+    region code 0 (a copy) or was computed by `intersect` / `clampToBound` and re-coded with `bitCode` until
+    its code is 0 (see Driver/C07.lean, "provenance").  Either way the result vertex has been TESTED by the
+    code against the closed box: exact membership, no tolerance (C07 judges the same code the same way).
+  * `clip.Ring` (Sutherland–Hodgman, passes left, right, bottom, top; also inside Polygon / MultiPolygon):
+    a pass copies the vertices on the inner side of its edge line and inserts `intersect` points whose
+    clipped coordinate IS the edge value, the other one being computed (`a + (b-a)·(e-a')/(b'-a')`).
+      - after the left and right passes every vertex has `lo.x ≤ x ≤ hi.x` exactly (copied and tested, or
+        set to an edge value);
+      - the bottom and top passes copy vertices tested against `lo.y` / `hi.y` and insert points with
+        `y = lo.y` / `y = hi.y` exactly and a COMPUTED x, interpolated between two x in [lo.x, hi.x]
+        (up to the error of the previous such point).
+    So for every vertex of a clipped ring: `lo.y ≤ y ≤ hi.y` EXACTLY; and `lo.x ≤ x ≤ hi.x` EXACTLY unless
+    `y` is exactly `lo.y` or `hi.y`, where x may be a computed value.  Its error: four roundings on the
+    term `(b-a)·q`, `|·| ≤ |b-a| ≤ 2M`, one on the sum, `|·| ≤ M` (M = largest absolute coordinate of box
+    and argument, u = 2⁻⁵³): below 12·u·M ≈ 1.4e-15·M per point, twice that when the top pass interpolates
+    from a point the bottom pass computed.  Tolerance used: `1e-13 · max 1 M`.  An input vertex that the
+    code returns unchanged (in particular a whole ring that fits the box) is thereby held to the exact
+    test on y always and on x whenever it does not lie exactly on the bottom / top edge line. -/
+
+def absQ (a : Q) : Q := if a < 0 then -a else a
+
+/-- `1e-13 · max 1 M`, M = largest absolute coordinate among `cs` -/
+def tolComputed (cs : List Q) : Q :=
+  let m := cs.foldl (fun m c => if m < absQ c then absQ c else m) 1
+  m / 10000000000000
+
+def boundCoords (b : Bound Q) : List Q := [b.lo.x, b.lo.y, b.hi.x, b.hi.y]
+
+def ringVertOK (b : Bound Q) (t : Q) (v : Pt Q) : Bool :=
+  b.lo.y ≤ v.y && v.y ≤ b.hi.y &&
+  (if v.y == b.lo.y || v.y == b.hi.y then b.lo.x - t ≤ v.x && v.x ≤ b.hi.x + t
+   else b.lo.x ≤ v.x && v.x ≤ b.hi.x)
+
+/-- the vertex clause on a RESULT, by the kind of each of its parts -/
+partial def vertsOK (b : Bound Q) (t : Q) : Geom Q → Bool
+  | .point p => Driver.C07.inClosed b p
+  | .multiPoint ps => ps.all (Driver.C07.inClosed b)
+  | .lineString l => l.all (Driver.C07.inClosed b)
+  | .multiLineString ls => ls.all fun l => l.all (Driver.C07.inClosed b)
+  | .ring r => r.all (ringVertOK b t)
+  | .polygon pg => pg.all fun r => r.all (ringVertOK b t)
+  | .multiPolygon mp => mp.all fun pg => pg.all fun r => r.all (ringVertOK b t)
+  | .bound lo hi => Driver.C07.inClosed b lo && Driver.C07.inClosed b hi
+  | .collection gs => gs.all (vertsOK b t)
 
 
 /-! ### "nothing remains" — exact classification of the INPUT against the box (over Rat)
@@ -168,6 +225,12 @@ def lineRem (b : Bound Q) (l : List (Pt Q)) : Rem :=
   | [] => .no "empty"
   | [_] => .unknown
   | _ =>
+    -- exact, no arithmetic involved: a vertex in the closed box has region code 0 and is copied into a piece
+    -- (the segments at it cannot be rejected); with every vertex strictly beyond one edge line the bound
+    -- pre-test (or, for a member, the region codes) rejects everything
+    if l.any (inClosed b) then .yes else
+    if l.all (fun p => p.x < b.lo.x) || l.all (fun p => p.x > b.hi.x) ||
+       l.all (fun p => p.y < b.lo.y) || l.all (fun p => p.y > b.hi.y) then .no "far" else
     let segs := pathSegs l
     if segs.any (fun s => segInOpen (grow b (-tol)) s.1 s.2) then .yes else
     if !(segs.any fun s => Orb.ClipSpec.segMeetsClosed (grow b tol) s.1 s.2) then .no "far" else .unknown
@@ -274,10 +337,11 @@ def handleRing (inp out : Toks) : String :=
     match res, boundQ b, ptsQ ps, ptsQ qs with
     | some rbits, some bq, some pq, some qq =>
       (match ptsQ rbits with
-       | none => "skip non-finite"
+       | none => "propfail non-finite-output"   -- finite box and ring, NaN / infinite coordinate in the result
        | some rq =>
          if !(bq.lo.x < bq.hi.x && bq.lo.y < bq.hi.y) then "skip degenerate-box" else
-         if !(rq.all (inBoxTol bq)) then "propfail vertex-outside-box" else
+         if !(rq.all (ringVertOK bq (tolComputed (boundCoords bq ++ pq.flatMap fun p => [p.x, p.y])))) then
+           "propfail vertex-outside-box" else
          let closedIn := pq.length ≥ 1 && pq.head? == pq.getLast?
          if closedIn && !rq.isEmpty && rq.head? != rq.getLast? then "propfail not-closed" else
          -- wholly inside: unchanged
@@ -293,10 +357,20 @@ def handleRing (inp out : Toks) : String :=
          -- disjoint bound ⇒ nothing
          let disjoint := pq.all (fun p => p.x < bq.lo.x) || pq.all (fun p => p.x > bq.hi.x) ||
                          pq.all (fun p => p.y < bq.lo.y) || pq.all (fun p => p.y > bq.hi.y)
-         if disjoint && !rq.isEmpty then "propfail disjoint-not-nil" else
          -- "a ring disjoint from the box yields nothing" / "nil exactly when nothing remains", exact:
          -- the ring's chain and even-odd region against the box (see `ringRem`)
          let rem := if closedIn then ringRem bq pq else Rem.unknown
+         -- A ring whose bound misses the box by LESS THAN THE ROUNDING of the first pass (a vertex one ulp
+         -- beyond a corner, on both axes) is the touching case of finding C08-sh-boundary-sliver reached by
+         -- rounding: the left / right pass computes an intersection that rounds ONTO the corner, and
+         -- Sutherland–Hodgman returns k copies of that corner.  Only in exactly that situation — the ring
+         -- comes within 1e-9 of the closed box (`touch`), and the result is a zero-area ring on the boundary
+         -- (`isSliver`) — the failure carries that finding's label; any other non-nil result for a ring with a
+         -- disjoint bound, and any result the Float twin does not reproduce (`finish` appends the diff), stays
+         -- `disjoint-not-nil`.
+         if disjoint && !rq.isEmpty then
+           (if rem == .touch && isSliver bq rq then "propfail nothing-remains-not-nil sliver-touching"
+            else "propfail disjoint-not-nil") else
          (match rem, rq.isEmpty with
           | .yes, true => "propfail nil-but-remains"
           | .no w, false => "propfail nothing-remains-not-nil " ++ w
@@ -392,9 +466,10 @@ def handleGeom (inp out : Toks) : String :=
      | _ => "") |> fun early => if early != "" then early else
     match geom out, boundQ b with
     | some (r, _), some bq =>
-      (match ptsQ (allPts r) with
-       | some vs =>
-         if !(vs.all (inBoxTol bq)) then "propfail vertex-outside-box" else
+      (match geomQ r with
+       | some rgq =>
+         let inCoords : List Q := match gq with | some q => coords q | none => []
+         if !(vertsOK bq (tolComputed (boundCoords bq ++ inCoords)) rgq) then "propfail vertex-outside-box" else
          -- nil ⇔ nothing remains, judged on the whole argument
          (match rem with
           | .no w => "propfail nothing-remains-not-nil " ++ w
@@ -423,7 +498,7 @@ def handleGeom (inp out : Toks) : String :=
                   | _, _ => true
                 if !holesOK then "propfail hole-dropped-but-remains" else
                 (match r with | .collection _ => "ok geom-coll" | _ => "ok geom") ++ remTag)
-       | none => "skip non-finite")
+       | none => if gq.isSome then "propfail non-finite-output" else "skip non-finite")
     | _, _ => "bad output"
 
 /-! ### `(*mvt.Layer).Clip` / `mvt.Layers.Clip` (encoding/mvt/clip.go): in-place compaction of `l.Features` -/
@@ -508,7 +583,12 @@ def handleLayer (inp out : Toks) : String :=
         if (keptIds ++ stale).length != ids.length || !(stale.all ids.contains) then "propfail layer-cells" else
         if al != "a" then "propfail layer-not-in-place" else
         if kept.any (fun (_, g) => (gvalPts g).isEmpty) then "propfail layer-empty-feature-kept" else
-        if kept.any (fun (_, g) => match ptsQ (gvalPts g) with | some vs => !(vs.all (inBoxTol bq)) | none => false) then
+        let inCoords : List Q := fs.flatMap fun (_, v) =>
+          match v with | .val g => (match geomQ g with | some q => coords q | none => []) | _ => []
+        let tc := tolComputed (boundCoords bq ++ inCoords)
+        if kept.any (fun (_, g) => match g with
+            | .val r => (match geomQ r with | some rq => !(vertsOK bq tc rq) | none => false)
+            | _ => false) then
           "propfail vertex-outside-box" else
         let bad := fs.filterMap fun (i, v) =>
           let rem : Rem := match v with
